@@ -72,6 +72,27 @@ def check_case(a):
             bp = logic.bparray(*strs)
             if not np.array_equal(bp, logic.mv_to_bp(mva)):
                 return [('bparray', f'bparray{tuple(strs)} differs from mv_to_bp(mvarray(..))')]
+        elif kind == 'nested':
+            # nested argument lists: k arguments, each a list of s strings of length n -> losslessly (k, n, s): characters (patterns) last,
+            # the strings of one argument (signals) second-to-last; for s == 1 the singleton axis may be dropped ((k, n)) or kept ((k, n, 1))
+            groups = a['groups']
+            k, s_, n = len(groups), len(groups[0]), len(groups[0][0])
+            mva = logic.mvarray(*groups)
+            codes = np.array([[[CHARS.index(ch) for ch in st] for st in g] for g in groups], dtype=np.uint8)       # (k, s, n)
+            ok_shapes = [(k, n, s_)] + ([(k, n)] if s_ == 1 else [])
+            if mva.shape not in ok_shapes:
+                return [('mvarray:nested-lossless', f'mvarray{tuple(groups)}: shape {mva.shape}, expected one of {ok_shapes} ({k * s_ * n} values given)')]
+            got = mva.reshape(k, n, s_)
+            if not np.array_equal(got, codes.swapaxes(-1, -2)):
+                return [('mvarray:nested-lossless', f'mvarray{tuple(groups)} = {mva.tolist()}')]
+        elif kind == 'pop':
+            arr = np.array(a['data'], dtype=np.uint8).reshape(a['shape'])
+            if a.get('strided'):
+                arr = np.repeat(arr, 2, axis=-1)[..., ::2]
+            pc = kyupy.popcount(arr)
+            want = sum(bin(int(x)).count('1') for x in arr.ravel())
+            if int(pc) != want:
+                return [('popcount', f'popcount of a uint8 array of shape {arr.shape} = {int(pc)}, it has {want} one bits')]
         elif kind == 'alias':
             for code, vals in ALIASES.items():
                 for v in vals:
@@ -90,7 +111,10 @@ def check_case(a):
             u = logic.unpackbits(arr)
             if u.shape != (*arr.shape, 8 * dt.itemsize):
                 return [('unpackbits:shape', f'{u.shape}')]
+            native = dt.isnative or dt.itemsize == 1
             for idx in np.ndindex(*arr.shape):
+                if not native:
+                    break           # the documented bit order is claimed for native byte order only; the inverse clause below is for every dtype
                 v = int(arr[idx]) & ((1 << (8 * dt.itemsize)) - 1)
                 if [int(b) for b in u[idx]] != [(v >> k) & 1 for k in range(8 * dt.itemsize)]:
                     return [('unpackbits:little-endian-bits', f'{arr[idx]} -> {u[idx].tolist()}')]
@@ -100,7 +124,7 @@ def check_case(a):
             # documented padding / truncation: fewer bits than the dtype -> signed dtypes repeat the last given bit, others pad with 0; more bits are cut
             w = 8 * dt.itemsize
             for nb in sorted({1, 3, w // 2, w - 1, w + 3}):
-                if nb < 1:
+                if nb < 1 or not native:
                     continue
                 part = u[..., :nb] if nb <= w else np.concatenate([u, np.ones((*u.shape[:-1], nb - w), dtype=u.dtype)], axis=-1)
                 pp = logic.packbits(part, dt)
@@ -128,7 +152,7 @@ def part(tier, seed):
                     'mv_to_bp / bp_to_mv on every shape with 1-3 axes and extents 1..10 (so every pattern count 1..10 and some up to 17) against an independent bit-by-bit oracle '
                     '(patterns on the last axis, signals on the second-to-last, padding lanes 0, lossless round trip); mvarray / mv_str / bparray on all strings of length <= 2 over '
                     'the 8 value characters as single vectors and all pairs / triples of equal-length strings up to length 3 (sampled); every alias of interpret; unpackbits / packbits '
-                    'on 9 integer dtypes x shapes; popcount; distinct = case', 'shapes <= 3 axes, extents <= 10 (+17); strings <= 3; 9 dtypes', exhaustive=False)
+                    'on 9 integer dtypes x shapes in native and explicit big/little-endian byte order (inverse clause for every one, documented bit order and padding for native); nested argument lists (k arguments x s strings x n characters); popcount on 1-3 axis uint8 arrays up to 48 bytes incl. all-ones, high-bit and non-contiguous data; distinct = case', 'shapes <= 3 axes, extents <= 10 (+17); strings <= 4; 17 dtype spellings', exhaustive=False)
     rng = random.Random(seed)
     cases = [{'kind': 'alias'}]
     shapes = [(n,) for n in range(1, 11)] + [(s, n) for s in range(1, 5) for n in list(range(1, 11)) + [16, 17]] + \
@@ -142,7 +166,16 @@ def part(tier, seed):
         for k in (2, 3):
             for _ in range(40 if tier == 'quick' else 400):
                 cases.append({'kind': 'str', 'strings': [''.join(rng.choice(CHARS) for _ in range(L)) for _ in range(k)]})
-    for dt in ('uint8', 'int8', 'uint16', 'int16', 'uint32', 'int32', 'uint64', 'int64', 'bool'):
+    for L in (2, 3, 4):             # 1-character strings are characters, not strings (documented ambiguity, not claimed)
+        for k in (1, 2, 3):
+            for s_ in (1, 2, 3):
+                cases.append({'kind': 'nested', 'groups': [[''.join(rng.choice(CHARS) for _ in range(L)) for _ in range(s_)] for _ in range(k)]})
+    for sh in ((1,), (7,), (8,), (9,), (16,), (17,), (40,), (3, 8), (8, 3), (2, 3, 8), (5, 5)):
+        nel = int(np.prod(sh))
+        for data in ([255] * nel, [0x80] * nel, [rng.randrange(256) for _ in range(nel)], [rng.choice((0x80, 0xff, 0x7f, 1)) for _ in range(nel)]):
+            cases.append({'kind': 'pop', 'shape': list(sh), 'data': data})
+            cases.append({'kind': 'pop', 'shape': list(sh), 'data': data, 'strided': True})
+    for dt in ('uint8', 'int8', 'uint16', 'int16', 'uint32', 'int32', 'uint64', 'int64', 'bool', '>u2', '>i2', '>u4', '>i4', '>u8', '>i8', '<u2', '<i8'):
         for sh in ((3,), (2, 3), (1, 2, 2)):
             info = np.iinfo(dt) if dt != 'bool' else None
             data = [(rng.randrange(info.min, info.max + 1) if info else rng.randrange(2)) for _ in range(int(np.prod(sh)))]
